@@ -89,6 +89,19 @@ def structure(dim, k, g):
         fail(who + "value at the paraboloid vertex is %r, prescribed %r" % (v0, f[0]))
 
 
+def hard_class_function(dim, k):
+    from iOpt.problems.GKLS_function.gkls_function import GKLSClass, GKLSFuncionType, GKLSFunction
+    f = GKLSFunction()
+    f.GKLS_global_value = -1.0
+    f.NumberOfLocalMinima = 10
+    f.SetDimension(dim)
+    f.mFunctionType = GKLSFuncionType.TD
+    f.SetFunctionClass(GKLSClass.Hard, dim)
+    f.GKLS_parameters_check()
+    f.SetFunctionNumber(k)
+    return f
+
+
 def reproducibility(dim, k, g):
     who = "GKLS(%d, %d): " % (dim, k)
     ref = golden()["%d,%d" % (dim, k)]
@@ -107,8 +120,11 @@ def reproducibility(dim, k, g):
         v = bench.real_eval(g, [0.9, 0.5, 0.3])
         if v != 0.93113217376043778:
             fail(who + "value at (0.9, 0.5, 0.3) is %r, the repository's own test records 0.93113217376043778" % v)
-    # constructing other functions in between must not change (n, k)
+    # constructing other functions in between must not change (n, k): another member, and the function with the
+    # same dimension and number from the generator's other difficulty class (built through the public
+    # GKLSFunction interface, the way GKLS.__init__ does it for the simple class)
     bench.construct("gkls", (2 + (dim + k) % 4, 1 + (7 * k) % 100))
+    hard_class_function(dim, k)
     g2 = bench.construct("gkls", (dim, k))
     M2, f2, rho2 = tables(g2)
     if not (np.array_equal(M, M2) and np.array_equal(f, f2) and np.array_equal(rho, rho2)):
@@ -260,6 +276,9 @@ def functions(ctx):
         if idx % ctx.nshards != ctx.shard:
             continue
         try:
+            if (dim + k) % 2:
+                # half of the functions are built after their hard-class namesake, half before (reproducibility)
+                guarded(lambda _c: hard_class_function(dim, k), None)
             g = guarded(lambda _c: bench.construct("gkls", (dim, k)), None)
             guarded(lambda _c: structure(dim, k, g), None)
             guarded(lambda _c: reproducibility(dim, k, g), None)
